@@ -10,66 +10,50 @@ import Emu8086.Props.C12Text
 namespace Emu8086.Props.C10Text
 open Emu8086 Emu8086.Driver Emu8086.Props.C12Text
 
-theorem kw_print : "print" ∈ Gen.interpKeywords := by decide
-theorem kw_mem : "mem" ∈ Gen.interpKeywords := by decide
-theorem kw_flags : Gen.interpKeywords.contains "flags" = true := by decide
-theorem kw_reg : Gen.interpKeywords.contains "reg" = true := by decide
-
 theorem print_flags_accepted : parsePrint "print flags" = some .flags := by
   decide +kernel
 theorem print_reg_accepted : parsePrint "print reg" = some .reg := by
   decide +kernel
+/-- the print lexer has no identifier terminal: `printreg` is `print` `reg` (as LALRPOP lexes it) -/
+theorem printreg_accepted : parsePrint "printreg" = some .reg := by
+  decide +kernel
 
-/-- a digit starts neither white space nor an identifier -/
-theorem digit_facts2 (c : Char) (h : c.isDigit = true) : isSpace c = false ∧ isIdStart c = false := by
+/-- a digit is not white space -/
+theorem digit_facts2 (c : Char) (h : c.isDigit = true) : isSpace c = false := by
   simp only [Char.isDigit, Bool.and_eq_true, decide_eq_true_eq] at h
   have h1 : 48 ≤ c.val.toNat := UInt32.le_iff_toNat_le.mp h.1
   have h2 : c.val.toNat ≤ 57 := UInt32.le_iff_toNat_le.mp h.2
-  constructor
-  · simp only [isSpace, Bool.or_eq_false_iff, beq_eq_false_iff_ne, ne_eq]
-    refine ⟨⟨⟨⟨⟨?_, ?_⟩, ?_⟩, ?_⟩, ?_⟩, ?_⟩ <;> (intro e; subst e; simp at h1 h2)
-  · simp only [isIdStart, Char.isAlpha, Char.isUpper, Char.isLower, Bool.or_eq_false_iff, Bool.and_eq_false_iff,
-      decide_eq_false_iff_not, beq_eq_false_iff_ne, ne_eq]
-    refine ⟨⟨?_, ?_⟩, ?_⟩
-    · intro ⟨hge, _⟩
-      have h3 : 65 ≤ c.val.toNat := UInt32.le_iff_toNat_le.mp hge
-      omega
-    · left; intro hge
-      have h3 : 97 ≤ c.val.toNat := UInt32.le_iff_toNat_le.mp hge
-      omega
-    · intro e; subst e; simp at h1 h2
+  simp only [isSpace, Bool.or_eq_false_iff, beq_eq_false_iff_ne, ne_eq]
+  refine ⟨⟨⟨⟨⟨?_, ?_⟩, ?_⟩, ?_⟩, ?_⟩, ?_⟩ <;> (intro e; subst e; simp at h1 h2)
 
-theorem lexAux_digits (kws : List String) (fuel : Nat) (ds rest : List Char) (acc : List Tok) (hne : ds ≠ [])
+theorem lexP_digits (fuel : Nat) (ds rest : List Char) (acc : List Tok) (hne : ds ≠ [])
     (hd : ∀ c ∈ ds, c.isDigit = true) (hr : noDigitAhead rest) :
-    lexAux kws (fuel + 1) (ds ++ rest) acc = lexAux kws fuel rest (.num (String.ofList ds) :: acc) := by
+    lexP (fuel + 1) (ds ++ rest) acc = lexP fuel rest (.num (String.ofList ds) :: acc) := by
   cases ds with
   | nil => exact absurd rfl hne
   | cons c cs =>
     have hc := hd c (by simp)
-    obtain ⟨f1, f2⟩ := digit_facts2 c hc
+    have f1 := digit_facts2 c hc
     have tw := takeWhile_digits (c :: cs) rest hd hr
     simp only [List.cons_append] at tw ⊢
-    simp only [lexAux, f1, f2, hc, Bool.false_eq_true, if_false, if_true, tw.1, tw.2]
+    simp only [lexP, f1, hc, Bool.false_eq_true, if_false, if_true, tw.1, tw.2]
 
-theorem lexAux_end (kws : List String) (fuel : Nat) (acc : List Tok) : lexAux kws (fuel + 1) [] acc = some acc.reverse := rfl
-theorem lexAux_blank (kws : List String) (fuel : Nat) (rest : List Char) (acc : List Tok) :
-    lexAux kws (fuel + 1) (' ' :: rest) acc = lexAux kws fuel rest acc := by
-  simp [lexAux, isSpace]
-theorem lexAux_arrow (kws : List String) (fuel : Nat) (rest : List Char) (acc : List Tok) :
-    lexAux kws (fuel + 1) ('-' :: '>' :: rest) acc = lexAux kws fuel rest (.arrow :: acc) := by
-  simp [lexAux, isSpace, isIdStart]
-theorem lexAux_colon (kws : List String) (fuel : Nat) (rest : List Char) (acc : List Tok) :
-    lexAux kws (fuel + 1) (':' :: rest) acc = lexAux kws fuel rest (.colon :: acc) := by
-  simp [lexAux, isSpace, isIdStart]
-/-- the two keywords, each followed by a blank -/
-theorem lexAux_print (fuel : Nat) (rest : List Char) (acc : List Tok) :
-    lexAux Gen.interpKeywords (fuel + 1) ("print".toList ++ ' ' :: rest) acc = lexAux Gen.interpKeywords fuel (' ' :: rest) (.kw "print" :: acc) := by
-  have : String.ofList ['p', 'r', 'i', 'n', 't'] = "print" := rfl
-  simp [lexAux, isSpace, isIdStart, isIdChar, List.takeWhile, List.dropWhile, this, kw_print]
-theorem lexAux_mem (fuel : Nat) (rest : List Char) (acc : List Tok) :
-    lexAux Gen.interpKeywords (fuel + 1) ("mem".toList ++ ' ' :: rest) acc = lexAux Gen.interpKeywords fuel (' ' :: rest) (.kw "mem" :: acc) := by
-  have : String.ofList ['m', 'e', 'm'] = "mem" := rfl
-  simp [lexAux, isSpace, isIdStart, isIdChar, List.takeWhile, List.dropWhile, this, kw_mem]
+theorem lexP_end (fuel : Nat) (acc : List Tok) : lexP (fuel + 1) [] acc = some acc.reverse := rfl
+theorem lexP_blank (fuel : Nat) (rest : List Char) (acc : List Tok) :
+    lexP (fuel + 1) (' ' :: rest) acc = lexP fuel rest acc := by
+  simp [lexP, isSpace]
+theorem lexP_arrow (fuel : Nat) (rest : List Char) (acc : List Tok) :
+    lexP (fuel + 1) ('-' :: '>' :: rest) acc = lexP fuel rest (.arrow :: acc) := by
+  simp [lexP, isSpace]
+theorem lexP_colon (fuel : Nat) (rest : List Char) (acc : List Tok) :
+    lexP (fuel + 1) (':' :: rest) acc = lexP fuel rest (.colon :: acc) := by
+  simp [lexP, isSpace]
+theorem lexP_print (fuel : Nat) (rest : List Char) (acc : List Tok) :
+    lexP (fuel + 1) ("print".toList ++ rest) acc = lexP fuel rest (.kw "print" :: acc) := by
+  simp [lexP, isSpace]
+theorem lexP_mem (fuel : Nat) (rest : List Char) (acc : List Tok) :
+    lexP (fuel + 1) ("mem".toList ++ rest) acc = lexP fuel rest (.kw "mem" :: acc) := by
+  simp [lexP, isSpace]
 
 /-- the reading of a decimal rendering by the printer's number rule -/
 theorem num_of_render (a : Nat) (h : a < 2 ^ 64) :
@@ -82,13 +66,13 @@ theorem num_of_render (a : Nat) (h : a < 2 ^ 64) :
 
 theorem toList_render (n : Nat) : (toString n).toList = Nat.toDigits 10 n := toString_nat_toList n
 
-theorem lexLine_range (a b : Nat) :
-    lexLine ("print mem " ++ toString a ++ " -> " ++ toString b)
+theorem lexPrint_range (a b : Nat) :
+    lexPrint ("print mem " ++ toString a ++ " -> " ++ toString b)
       = some [.kw "print", .kw "mem", .num (String.ofList (Nat.toDigits 10 a)), .arrow, .num (String.ofList (Nat.toDigits 10 b))] := by
   have hl : ("print mem " ++ toString a ++ " -> " ++ toString b).toList =
       "print".toList ++ ' ' :: ("mem".toList ++ ' ' :: (Nat.toDigits 10 a ++ ' ' :: '-' :: '>' :: ' ' :: (Nat.toDigits 10 b ++ []))) := by
     simp [String.toList_append, toList_render]
-  simp only [lexLine, hl]
+  simp only [lexPrint, hl]
   have hpa := List.length_pos_iff.mpr (toDigits_ne_nil a)
   have hpb := List.length_pos_iff.mpr (toDigits_ne_nil b)
   have h5 : "print".toList.length = 5 := rfl
@@ -96,10 +80,10 @@ theorem lexLine_range (a b : Nat) :
   have hlen : ("print".toList ++ ' ' :: ("mem".toList ++ ' ' :: (Nat.toDigits 10 a ++ ' ' :: '-' :: '>' :: ' ' :: (Nat.toDigits 10 b ++ [])))).length + 1
       = ((Nat.toDigits 10 a).length + (Nat.toDigits 10 b).length + 5) + 1 + 1 + 1 + 1 + 1 + 1 + 1 + 1 + 1 + 1 := by
     simp only [List.length_append, List.length_cons, List.length_nil, h5, h3]; omega
-  rw [hlen, lexAux_print, lexAux_blank, lexAux_mem, lexAux_blank,
-    lexAux_digits _ _ _ _ _ (toDigits_ne_nil a) (digits_all a) (by simp [noDigitAhead]),
-    lexAux_blank, lexAux_arrow, lexAux_blank,
-    lexAux_digits _ _ _ [] _ (toDigits_ne_nil b) (digits_all b) trivial, lexAux_end]
+  rw [hlen, lexP_print, lexP_blank, lexP_mem, lexP_blank,
+    lexP_digits _ _ _ _ (toDigits_ne_nil a) (digits_all a) (by simp [noDigitAhead]),
+    lexP_blank, lexP_arrow, lexP_blank,
+    lexP_digits _ _ [] _ (toDigits_ne_nil b) (digits_all b) trivial, lexP_end]
   rfl
 
 /-- **`print mem a -> b`** as emitted (decimal) is read back as the range a..b (mod 1 MiB) -/
@@ -108,15 +92,15 @@ theorem print_range_accepted (a b : Nat) (ha : a < 2 ^ 64) (hb : b < 2 ^ 64) :
   have na := num_of_render a ha
   have nb := num_of_render b hb
   simp only at na nb
-  simp only [parsePrint, lexLine_range, na, nb, bind, Option.bind, pure]
+  simp only [parsePrint, lexPrint_range, na, nb, bind, Option.bind, pure]
 
-theorem lexLine_span (a b : Nat) :
-    lexLine ("print mem " ++ toString a ++ " : " ++ toString b)
+theorem lexPrint_span (a b : Nat) :
+    lexPrint ("print mem " ++ toString a ++ " : " ++ toString b)
       = some [.kw "print", .kw "mem", .num (String.ofList (Nat.toDigits 10 a)), .colon, .num (String.ofList (Nat.toDigits 10 b))] := by
   have hl : ("print mem " ++ toString a ++ " : " ++ toString b).toList =
       "print".toList ++ ' ' :: ("mem".toList ++ ' ' :: (Nat.toDigits 10 a ++ ' ' :: ':' :: ' ' :: (Nat.toDigits 10 b ++ []))) := by
     simp [String.toList_append]
-  simp only [lexLine, hl]
+  simp only [lexPrint, hl]
   have hpa := List.length_pos_iff.mpr (toDigits_ne_nil a)
   have hpb := List.length_pos_iff.mpr (toDigits_ne_nil b)
   have h5 : "print".toList.length = 5 := rfl
@@ -124,10 +108,10 @@ theorem lexLine_span (a b : Nat) :
   have hlen : ("print".toList ++ ' ' :: ("mem".toList ++ ' ' :: (Nat.toDigits 10 a ++ ' ' :: ':' :: ' ' :: (Nat.toDigits 10 b ++ [])))).length + 1
       = ((Nat.toDigits 10 a).length + (Nat.toDigits 10 b).length + 4) + 1 + 1 + 1 + 1 + 1 + 1 + 1 + 1 + 1 + 1 := by
     simp only [List.length_append, List.length_cons, List.length_nil, h5, h3]; omega
-  rw [hlen, lexAux_print, lexAux_blank, lexAux_mem, lexAux_blank,
-    lexAux_digits _ _ _ _ _ (toDigits_ne_nil a) (digits_all a) (by simp [noDigitAhead]),
-    lexAux_blank, lexAux_colon, lexAux_blank,
-    lexAux_digits _ _ _ [] _ (toDigits_ne_nil b) (digits_all b) trivial, lexAux_end]
+  rw [hlen, lexP_print, lexP_blank, lexP_mem, lexP_blank,
+    lexP_digits _ _ _ _ (toDigits_ne_nil a) (digits_all a) (by simp [noDigitAhead]),
+    lexP_blank, lexP_colon, lexP_blank,
+    lexP_digits _ _ [] _ (toDigits_ne_nil b) (digits_all b) trivial, lexP_end]
   rfl
 
 /-- **`print mem a : n`** -/
@@ -136,22 +120,22 @@ theorem print_span_accepted (a n : Nat) (ha : a < 2 ^ 64) (hn : n < 2 ^ 64) :
   have na := num_of_render a ha
   have nb := num_of_render n hn
   simp only at na nb
-  simp only [parsePrint, lexLine_span, na, nb, bind, Option.bind, pure]
+  simp only [parsePrint, lexPrint_span, na, nb, bind, Option.bind, pure]
 
-theorem lexLine_dsSpan (b : Nat) :
-    lexLine ("print mem : " ++ toString b) = some [.kw "print", .kw "mem", .colon, .num (String.ofList (Nat.toDigits 10 b))] := by
+theorem lexPrint_dsSpan (b : Nat) :
+    lexPrint ("print mem : " ++ toString b) = some [.kw "print", .kw "mem", .colon, .num (String.ofList (Nat.toDigits 10 b))] := by
   have hl : ("print mem : " ++ toString b).toList =
       "print".toList ++ ' ' :: ("mem".toList ++ ' ' :: ':' :: ' ' :: (Nat.toDigits 10 b ++ [])) := by
     simp [String.toList_append]
-  simp only [lexLine, hl]
+  simp only [lexPrint, hl]
   have hpb := List.length_pos_iff.mpr (toDigits_ne_nil b)
   have h5 : "print".toList.length = 5 := rfl
   have h3 : "mem".toList.length = 3 := rfl
   have hlen : ("print".toList ++ ' ' :: ("mem".toList ++ ' ' :: ':' :: ' ' :: (Nat.toDigits 10 b ++ []))).length + 1
       = ((Nat.toDigits 10 b).length + 5) + 1 + 1 + 1 + 1 + 1 + 1 + 1 + 1 := by
     simp only [List.length_append, List.length_cons, List.length_nil, h5, h3]; omega
-  rw [hlen, lexAux_print, lexAux_blank, lexAux_mem, lexAux_blank, lexAux_colon, lexAux_blank,
-    lexAux_digits _ _ _ [] _ (toDigits_ne_nil b) (digits_all b) trivial, lexAux_end]
+  rw [hlen, lexP_print, lexP_blank, lexP_mem, lexP_blank, lexP_colon, lexP_blank,
+    lexP_digits _ _ [] _ (toDigits_ne_nil b) (digits_all b) trivial, lexP_end]
   rfl
 
 /-- **`print mem : n`** -/
@@ -159,7 +143,7 @@ theorem print_dsSpan_accepted (n : Nat) (hn : n < 2 ^ 64) :
     parsePrint ("print mem : " ++ toString n) = some (.dsSpan (n % MB)) := by
   have nb := num_of_render n hn
   simp only at nb
-  simp only [parsePrint, lexLine_dsSpan, nb, bind, Option.bind, pure]
+  simp only [parsePrint, lexPrint_dsSpan, nb, bind, Option.bind, pure]
 
 /-- the texts above are the assembler model's templates -/
 theorem emitted_range (a b : Nat) : s!"print mem {a} -> {b}" = "print mem " ++ toString a ++ " -> " ++ toString b := rfl
